@@ -109,6 +109,23 @@ func makeRemoteSource(sourceType string, u *url.URL, subPath string) (RemoteSour
 		return RemoteSource{}, fmt.Errorf("must not use username or password in URL portion")
 	}
 
+	// RemotePackage values are compared with == and used as map keys, so two
+	// URLs that print the same must also be represented the same. A url.URL
+	// can carry detail that does not survive printing: url.Parse keeps a
+	// RawPath for a path written with a literal space or non-ASCII letter
+	// but not for the same path written percent-encoded, and a URL assembled
+	// by hand can have a RawPath that merely repeats Path or no longer
+	// matches it. Keep only what survives printing the URL and parsing it
+	// again, which is also what a bundle manifest remembers of it.
+	canon, err := url.Parse(u.String())
+	if err != nil {
+		return RemoteSource{}, fmt.Errorf("invalid URL syntax in %q: %w", u.String(), err)
+	}
+	if canon.User != nil {
+		return RemoteSource{}, fmt.Errorf("must not use username or password in URL portion")
+	}
+	u = canon
+
 	// The per-type rules below read the query string through url.URL.Query,
 	// which silently drops pairs it cannot parse (such as ones containing a
 	// semicolon). Refuse such a query string on every route, so that an
@@ -128,7 +145,7 @@ func makeRemoteSource(sourceType string, u *url.URL, subPath string) (RemoteSour
 		}
 	}
 
-	err := typeImpl.PrepareURL(u)
+	err = typeImpl.PrepareURL(u)
 	if err != nil {
 		return RemoteSource{}, err
 	}
